@@ -365,6 +365,17 @@ func opGcsConc(_ *HState, a Event) Event {
 			}
 		}
 	}
+	// a filter decoded from a receive buffer that the "network" goroutine re-uses for the next messages while the
+	// filter is being queried: a decoded filter owns its data (it is immutable from then on)
+	var recv []byte
+	if gBool(a, "reused") && f != nil {
+		if nb, err := f.NBytes(); err == nil {
+			recv = append([]byte{}, nb...)
+			if g, err := gcs.FromNBytes(19, 784931, recv); err == nil {
+				f = g
+			}
+		}
+	}
 	qs := gItems(a, "q")
 	ask := func() []bool {
 		var r []bool
@@ -389,6 +400,18 @@ func opGcsConc(_ *HState, a Event) Event {
 			<-start
 			conc[g] = ask()
 		}(g)
+	}
+	if recv != nil {
+		wg.Add(1)
+		go func() {
+			defer wg.Done()
+			<-start
+			for i := 0; i < 2000; i++ {
+				for j := range recv {
+					recv[j] = byte(i + j)
+				}
+			}
+		}()
 	}
 	close(start)
 	wg.Wait()
